@@ -21,6 +21,11 @@ CONSTANTS
   FeesSet = {%(fees)s}
   TuPoints = {%(tus)s}
   NodeCount = %(nodes)d
+  EcoInfls = {%(ecoinfls)s}
+  EcoBlocks = {1, 3, 10}
+  EcoAccs = {0, 1, 6, 7, 8, 21, 120, 121, 399, 400, 401, 1000}
+  EcoDevs = {0, 1, 5, 100}
+  EcoPcts = {0, 10, 25, 50}
 %(rest)s
 CHECK_DEADLOCK FALSE
 """
@@ -144,11 +149,16 @@ def run(ctx):
         "are checked by TLC for the sum identity and positivity only (limb addition), and in Go with math/big as a supplement",
         "the legacy creator (rewards.go, before staking V2) is specified separately (RewardsV1.tla); its inputs additionally "
         "satisfy RewardsPerBlock x blocks <= TotalToDistribute - dev - leader - protocol",
+        "end-to-end stage: the identity checked is  sum of reward txs (incl. protocol sustainability) = Economics.TotalToDistribute "
+        "- MetaBlock.DevFeesInEpoch  with TotalToDistribute as returned by the real ComputeEndOfEpochEconomics (the header figure "
+        "VerifyRewardsPerBlock compares) and the rewards for blocks / leader fees as the real economics published them; the float "
+        "inflation formula is not modelled: the inflation-based total of an epoch is observed from the real economics with zero "
+        "fees; staking-V2 epochs only (epoch > StakingV2EnableEpoch); developer fees at most 30 % of the accumulated fees",
         "stubs: staking data provider, rewards handler (top-up factor / gradient point), accounts (delegation contract marker), "
         "nodes coordinator (consensus sizes); real: rewardsCreatorV2, multi-shard coordinator, epoch economics statistics, "
         "current-block tx pool, marshalizer, hasher")
     base = dict(spec="MCSpec", log="LogLast", depth=0, totals="0, 7, 101", devs="0, 3", leaders="0, 4", prots="6",
-                blocks="MCBlockFew", cons="MCConsFew", sels="0, 2", topups="0, 3", fees="0, 2", tus="0, 3, 10", nodes=3,
+                blocks="MCBlockFew", cons="MCConsFew", sels="0, 2", topups="0, 3", fees="0, 2", tus="0, 3, 10", nodes=3, ecoinfls="",
                 rest="VIEW cvars\nINVARIANTS Inv_C35_NoClauseViolated Inv_C35_DustNonNegative Inv_C35_StagesBounded")
     if q:
         base.update(totals="101", tus="0, 10")
@@ -169,7 +179,24 @@ def run(ctx):
         # four validators (a waiting / eligible node in shard 2 with its own address), narrower figures
         ctx.tlc(sd, "MC_Rewards", cfg("r1b.cfg", nodes=4, totals="101", devs="3", leaders="4", prots="6", sels="0, 2",
                                       blocks="MCBlockFew", tus="7"), timeout=3000, heap="8g")
+    # R1 of the economics stage (economics.go): inflation, the fees-exceed-inflation correction, what is published for the
+    #    rewards creator; the published figures add up to TotalToDistribute - DevFeesInEpoch in every branch
+    ctx.tlc(sd, "MC_Rewards", cfg("eco.cfg", spec="EcoSpec", ecoinfls="0, 1, 7, 40",
+                                  rest="VIEW cvars\nINVARIANT Inv_C35_EcoPublishedAddUp"), timeout=900)
     exe = ctx.go_build("vh-rewards")
+
+    # End to end: real economics -> real EpochEconomicsStatistics -> real rewardsCreatorV2, epochs with fees below /
+    # equal / above the inflation; TLC checks the economics figures, the run and the C35 identity on the real numbers
+    tr0 = ctx.path("trace-e2e.ndjson")
+    h0 = ctx.vh(exe, ["e2e", ctx.seed, 160 if q else 1500, tr0], timeout=1500)
+    st0, _ = vlib.validate_trace(ctx, sd, "Trace_Rewards", "Trace_Rewards.cfg", tr0, int(h0.stats.get("events", 0)),
+                                 "C35/e2e", divergence_is_violation=False, obs_cfg=OBS, timeout=1800,
+                                 what="real economics + real rewardsCreatorV2 (end to end)")
+    if st0 == "accepted":
+        ctx.cov(traces_validated_against_impl=int(h0.stats.get("events", 0)), evaluations=int(h0.stats.get("events", 0)),
+                end_to_end_epochs=h0.stats.get("stats", {}))
+    if int(h0.stats.get("events", 0)) == 0:
+        ctx.broken.append("the end-to-end stage produced no run")
 
     # R2/R3 (a): TLC-enumerated small inputs run on the real rewardsCreatorV2, the observed runs validated by TLC
     inp = ctx.path("inputs.ndjson")
